@@ -389,3 +389,87 @@ Theorem C14_predicate_receivers_ok :
   (containment_reads_request_context, physical_path_reads_request_context) = (true, false).
 Proof. exact predicate_receivers_ok. Qed.
 Print Assumptions C14_predicate_receivers_ok.
+
+(* ------------------------------------------------------------------ *)
+(* THE RAISING SITE (Proofs/C14_e.v): what an ordinary view body raised is what reaches exception handling.
+   [judge_site] (executable, applied by the check to the implementation's trace) reads the ordinary view-body events
+   of the dispatch below the excview tween: a body that raised anything but a PredicateMismatch is the last body and
+   its object is what reaches the excview tween (or what a catching tween hands to invoke_exception_view); a body
+   that answered is the last one and its response is the outcome.  Full strength: view bodies may raise
+   PredicateMismatch (the search goes on), every registry, every request; the only premise says that the traversed
+   resource is not an exception. *)
+Require Import Verif.Proofs.C14_e.
+
+Theorem C14_raising_site_reaches_handling : forall P W ri,
+  isa W cn_Exception ctx_resource = false ->
+  judge_site W (site_mode_of (ri_under ri)) (run_request_pm P W ri) = true.
+Proof. exact judge_site_accepts_model. Qed.
+Print Assumptions C14_raising_site_reaches_handling.
+
+Theorem C14_gen_raising_site_reaches_handling : forall b W ri,
+  isa W cn_Exception ctx_resource = false ->
+  judge_site W (site_mode_of (ri_under ri)) (run_request_gen (spec_params_b b) W ri) = true.
+Proof. exact gen_judge_site_accepts. Qed.
+Print Assumptions C14_gen_raising_site_reaches_handling.
+
+(* Router.handle_request with the search-goes-on loop: the ordinary bodies it ran and its outcome *)
+Theorem C14_main_handler_site : forall P W ri second st,
+  let r := main_handler_pm P W ri second st in
+  exists evs, st_log (snd r) = st_log st ++ evs /\ bodies_ctx ctx_resource evs /\ site_walk W evs (fst r) = true.
+Proof. exact main_pm_site. Qed.
+Print Assumptions C14_main_handler_site.
+
+(* ------------------------------------------------------------------ *)
+(* SUBREQUESTS (request.invoke_subrequest(sub [, use_tweens=..]) called below the excview tween).  The default of
+   use_tweens is a regenerated fact; the documented value is False. *)
+Theorem C14_subrequest_default_ok : subrequest_use_tweens_default = false.
+Proof. exact subrequest_default_ok. Qed.
+Print Assumptions C14_subrequest_default_ok.
+
+Theorem C14_subrequest_gen_is_model : forall b W ri tweens,
+  run_request_sub_gen (spec_params_b b) W ri tweens = run_request_sub_m (spec_params_b b) W ri tweens.
+Proof. exact run_request_sub_gen_is_model. Qed.
+Print Assumptions C14_subrequest_gen_is_model.
+
+(* without the tweens, what reaches the excview tween of the OUTER request is exactly the outcome of the
+   subrequest's main handler, after exactly the events of that handler: nothing rendered it on the way *)
+Theorem C14_subrequest_without_tweens_reaches_outer : forall P W ri,
+  let '(o, s1) := main_handler_pm P W (sub_ri ri) false (mkSt [] []) in
+  exists post, run_request_sub_m P W ri false = st_log s1 ++ EProbe o (snap (init_attrs ri)) :: post.
+Proof. exact sub_without_tweens_reaches_outer. Qed.
+Print Assumptions C14_subrequest_without_tweens_reaches_outer.
+
+Theorem C14_subrequest_raising_site : forall P W ri ut,
+  judge_site W (site_mode_sub ut) (run_request_sub_m P W ri (sub_tweens false ut)) = true.
+Proof. exact judge_site_accepts_sub. Qed.
+Print Assumptions C14_subrequest_raising_site.
+
+Theorem C14_gen_subrequest_raising_site : forall b W ri ut,
+  judge_site W (site_mode_sub ut) (run_request_sub_gen (spec_params_b b) W ri (sub_tweens false ut)) = true.
+Proof. exact gen_judge_site_accepts_sub. Qed.
+Print Assumptions C14_gen_subrequest_raising_site.
+
+(* with a default of True the statement is false: the subrequest's own excview tween renders the exception and the
+   outer request receives a response (witness by computation; the second half: accepted with the documented default) *)
+Theorem C14_subrequest_default_true_refuted :
+  judge_site sx_W (site_mode_sub None) (run_request_sub_m spec_params sx_W sx_ri (sub_tweens true None)) = false
+  /\ judge_site sx_W (site_mode_sub None) (run_request_sub_m spec_params sx_W sx_ri (sub_tweens false None)) = true.
+Proof. exact sub_default_true_refuted. Qed.
+Print Assumptions C14_subrequest_default_true_refuted.
+
+(* the rendering judge accepts the subrequest scenario: what reaches the outer excview tween is rendered for the
+   OUTER request (partial as C14_judge_accepts_model_pm_partial: no body raises PredicateMismatch, the lookup
+   hypothesis of C03).  Non-vacuity: Example judge_accepts_sub_nonvacuous (Proofs/C14_e.v). *)
+Theorem C14_judge_accepts_subrequest_partial : forall b regs W ri,
+  no_pm (spec_params_b b) W ->
+  (forall e, spec_ok exc_classifier_id regs (exc_request (spec_params_b b) W ri e)
+               (call_view (w_reg W) exc_classifier_id (exc_request (spec_params_b b) W ri e)) = true) ->
+  (forall site, In site [site_under; site_tween] ->
+     isa W cn_HTTPNotFound (fresh_nf site) = true /\ isa W cn_HTTPNotFound (fresh_pme site) = true
+     /\ isa W cn_Exception (fresh_pme site) = true
+     /\ isa W cn_HTTPForbidden (fresh_forb site) = true /\ isa W cn_Exception (fresh_forb site) = true
+     /\ isa W cn_HTTPNotFound (fresh_forb site) = false) ->
+  sec_of (ri_under ri) = true ->
+  forall tweens, judge regs W ri (run_request_sub_m (spec_params_b b) W ri tweens) = true.
+Proof. exact judge_accepts_sub. Qed.
+Print Assumptions C14_judge_accepts_subrequest_partial.
